@@ -29,7 +29,7 @@ func (*C03) Plan(tier string) orch.Plan {
 	return orch.Plan{Episodes: n, Batch: 1}
 }
 
-var c03Kinds = map[int]string{1: "plain", 2: "plain", 3: "logwriter", 4: "levelsettable", 5: "levelplain", 6: "plain"}
+var c03Kinds = map[int]string{1: "plain", 2: "wrapped", 3: "logwriter", 4: "levelsettable", 5: "levelplain", 6: "plain"}
 
 const (
 	c03CustomErr  = 21 // registered with the error-device option
@@ -77,6 +77,11 @@ func (p *C03) Gen(seed uint64, i int, tier string) *scen.Scenario {
 				continue
 			}
 			n++
+			if r.Chance(1, 6) {
+				// GetWriterBy(severity) must hand out exactly the destinations a record of that severity goes to
+				sc.Setup = append(sc.Setup, scen.Op{Op: "get_writer_by", L: l, Lvl: s, Msg: "p" + tok(n), Tok: tok(n), Probe: true})
+				continue
+			}
 			sc.Setup = append(sc.Setup, scen.Op{Op: "log", L: l, Entry: "LogAttrs", Lvl: s, Msg: "p" + tok(n), Tok: tok(n), Probe: true})
 		}
 	}
@@ -233,7 +238,7 @@ func (p *C03) Check(sc *scen.Scenario, run *orch.Run, env *orch.Env) []orch.Viol
 			out = append(out, orch.Violation{Rule: "C03.panic", Witness: w, Detail: fmt.Sprintf("setup[%d] %s %s panicked: %s", i, op.Op, op.Kind, o.Panic.S)})
 			continue
 		}
-		if op.Op != "log" || !op.Probe || o.Skipped {
+		if (op.Op != "log" && op.Op != "get_writer_by") || !op.Probe || o.Skipped {
 			continue
 		}
 		m := model.WritersFromHistory(sc.Setup, i)[op.L]
@@ -282,7 +287,11 @@ func (p *C03) Check(sc *scen.Scenario, run *orch.Run, env *orch.Env) []orch.Viol
 			}
 		}
 		// a destination that asks to be told the severity is told it immediately before each Write
+		// (of a record; a raw Write through GetWriterBy is the caller's own business)
 		for _, w := range o.Writes {
+			if op.Op == "get_writer_by" {
+				break
+			}
 			k := kinds[w.W]
 			if k != "levelsettable" && k != "levelplain" {
 				continue
